@@ -625,14 +625,13 @@ fn find_tsig_algorithm_or_write_error(
         Some(algorithm)
     } else {
         response.set_rcode(Rcode::NOTAUTH);
-        response
-            .set_tsig(
-                writer::TsigMode::Unsigned {
-                    algorithm: tsig_rr.algorithm().to_owned(),
-                },
-                PreparedTsigRr::new_from_read(tsig_rr, now, TSIG_FUDGE, ExtendedRcode::BADKEY),
-            )
-            .unwrap();
+        set_tsig_or_truncate(
+            response,
+            writer::TsigMode::Unsigned {
+                algorithm: tsig_rr.algorithm().to_owned(),
+            },
+            PreparedTsigRr::new_from_read(tsig_rr, now, TSIG_FUDGE, ExtendedRcode::BADKEY),
+        );
         None
     }
 }
@@ -657,14 +656,13 @@ fn find_tsig_key_or_write_error<'k>(
         Some(key)
     } else {
         response.set_rcode(Rcode::NOTAUTH);
-        response
-            .set_tsig(
-                writer::TsigMode::Unsigned {
-                    algorithm: tsig_rr.algorithm().to_owned(),
-                },
-                PreparedTsigRr::new_from_read(tsig_rr, now, TSIG_FUDGE, ExtendedRcode::BADKEY),
-            )
-            .unwrap();
+        set_tsig_or_truncate(
+            response,
+            writer::TsigMode::Unsigned {
+                algorithm: tsig_rr.algorithm().to_owned(),
+            },
+            PreparedTsigRr::new_from_read(tsig_rr, now, TSIG_FUDGE, ExtendedRcode::BADKEY),
+        );
         None
     }
 }
@@ -726,13 +724,29 @@ fn verify_tsig_and_write_tsig_rr(
         };
 
     response.set_rcode(rcode);
-    response
-        .set_tsig(
-            mode,
-            PreparedTsigRr::new_from_read(tsig_rr, now, TSIG_FUDGE, tsig_err),
-        )
-        .unwrap();
-    rcode == Rcode::NOERROR
+    let tsig_rr_added = set_tsig_or_truncate(
+        response,
+        mode,
+        PreparedTsigRr::new_from_read(tsig_rr, now, TSIG_FUDGE, tsig_err),
+    );
+    tsig_rr_added && rcode == Rcode::NOERROR
+}
+
+/// Adds a TSIG RR to the response, returning whether this succeeded.
+///
+/// The only way for this to fail is a lack of space. This cannot happen
+/// over TCP, but it can over UDP: a question with a very long QNAME
+/// plus a TSIG RR with very long key and algorithm names do not fit in
+/// a small UDP response. In that case, no TSIG RR is added and the TC
+/// bit is set to make the client retry over TCP. The caller must not
+/// add anything further to the response.
+fn set_tsig_or_truncate(response: &mut Writer, mode: writer::TsigMode, rr: PreparedTsigRr) -> bool {
+    if response.set_tsig(mode, rr).is_ok() {
+        true
+    } else {
+        response.set_tc(true);
+        false
+    }
 }
 
 ////////////////////////////////////////////////////////////////////////
